@@ -161,6 +161,12 @@ func genMessage(r *gen.R, wellFormed bool) genMsg {
 			t = r.Bytes(r.Range(1, 12), "ab :\x01\t")
 		case 3:
 			t = "  leading and trailing  "
+		case 4:
+			if r.P(1, 8) {
+				t = r.Bytes(r.Range(4000, 9000), "abc XYZ:,.!") // longer than the 4096-byte read buffer
+			} else {
+				t = r.Bytes(r.Range(1, 20), "abc XYZ:,.!\xc3\xa9")
+			}
 		default:
 			t = r.Bytes(r.Range(1, 20), "abc XYZ:,.!\xc3\xa9")
 		}
